@@ -172,6 +172,16 @@ func cmdCheck(args []string) int {
 	}
 	eng.Discharge(all, cfg)
 
+	if os.Getenv("GOVC_DEBUG") != "" {
+		sorted := append([]*eng.Obligation(nil), all...)
+		sort.Slice(sorted, func(i, j int) bool { return sorted[i].Time > sorted[j].Time })
+		for i, ob := range sorted {
+			if i >= 15 {
+				break
+			}
+			fmt.Printf("DEBUG slow %.2fs %s %s %s size=%d\n", ob.Time, ob.Status, ob.Solver, ob.Name, ob.Size)
+		}
+	}
 	// aggregate by name
 	type agg struct {
 		obs []*eng.Obligation
@@ -269,8 +279,8 @@ func cmdCheck(args []string) int {
 	exit := 0
 	var knownHit []string
 	for _, ob := range failing {
-		if k := isKnown(ob.Name); k != nil {
-			fmt.Printf("KNOWN-FINDING: property=%s %s\n", pd.ID, k.Text)
+		if k := isKnown(ob.Name); k != nil && strings.Contains(ob.Name, "!") {
+			fmt.Printf("KNOWN-FINDING: %s\n", k.Text)
 			knownHit = append(knownHit, ob.Name)
 			continue
 		}
